@@ -140,6 +140,13 @@ def e2e_cases(ctx):
             kw_r["compression_rank"] = -kw_r["compression_rank"]
           cases.append(dict(kind="pmap", N_target=N, mode=mode, root=root, shapes=shapes,
                             block_size=block, kw=kw_r, Ds=Ds, steps=3, seed=seed))
+          if root == "surrogate" and len(shapes) > 1 and (i + modes.index(mode)) % 2 == 0:
+            # some roots fail while others succeed (added after a seeded change that shifted the
+            # per-statistic errors by the padding count was missed: with every root accepted the
+            # errors never mattered)
+            cases.append(dict(kind="pmap", N_target=N, mode=mode, root=root, shapes=shapes,
+                              block_size=block, kw=kw_r, Ds=Ds, steps=3, seed=seed,
+                              reject_leaf=rng.below(len(shapes))))
   # sharded variant (eager, slow): small trees, declared device counts
   if quick:
     sh = [(0, [1, 3]), (1, [1, 2, 8]), (4, [1, 3, 8]), (5, [1, 2, 3, 8]), (7, [1, 2, 8])]
